@@ -25,13 +25,30 @@ ROOT = 'tape_recorder_recordings/'
 CATS = ['Op', 'OpX', '/orders', '', 'a/b', 'Op']      # a request path, the empty name and a nested name are legal categories too
 
 
-def own_namespaces(prefix):
+ARCHIVE_ROOT = 'archive/'
+_archive = []
+
+
+def archive_cls():
+    """A user's subclass that files its recordings under another root by overriding the public key templates."""
+    if not _archive:
+        from playback.tape_cassettes.s3.s3_tape_cassette import S3TapeCassette
+
+        class ArchiveCassette(S3TapeCassette):
+            FULL_KEY = ARCHIVE_ROOT + '{key_prefix}full/{id}'
+            METADATA_KEY = ARCHIVE_ROOT + '{key_prefix}metadata/{id}'
+        _archive.append(ArchiveCassette)
+    return _archive[0]
+
+
+def own_namespaces(prefix, layout=None):
     kp = (prefix + '/') if prefix else ''
-    return (ROOT + kp + 'full/', ROOT + kp + 'metadata/')
+    root = ARCHIVE_ROOT if layout == 'archive' else ROOT
+    return (root + kp + 'full/', root + kp + 'metadata/')
 
 
-def in_ns(key, prefix):
-    return any(key.startswith(ns) for ns in own_namespaces(prefix))
+def in_ns(key, prefix, layout=None):
+    return any(key.startswith(ns) for ns in own_namespaces(prefix, layout))
 
 
 class Case(object):
@@ -47,14 +64,15 @@ class Case(object):
         self.configs = []
         for i in range(rng.randrange(2, 5)):
             self.configs.append({'tag': 'c%d' % i, 'prefix': rng.choice(PREFIXES), 'read_only': rng.random() < 0.4,
-                                 'transient': rng.random() < 0.5, 'sampler': rng.choice([None, None, None, 0.0, 0.5, 1.0])})
+                                 'transient': rng.random() < 0.5, 'sampler': rng.choice([None, None, None, 0.0, 0.5, 1.0]),
+                                 'layout': 'archive' if rng.random() < 0.15 else None})
         if not any(not c['read_only'] for c in self.configs):
             self.configs[0]['read_only'] = False
         steps = []
         for _ in range(rng.randrange(12, 41)):
             c = rng.randrange(len(self.configs))
-            op = rng.choices(['create', 'save', 'get', 'meta', 'list', 'close', 'exit', 'save_foreign_rec', 'toggle_read_only', 'toggle_transient', 'use_copy'],
-                             [6, 8, 3, 2, 3, 1, 1, 1, 0.5, 0.4, 0.5])[0]
+            op = rng.choices(['create', 'save', 'get', 'meta', 'list', 'close', 'exit', 'save_foreign_rec', 'toggle_read_only', 'toggle_transient', 'use_copy', 'resave'],
+                             [6, 8, 3, 2, 3, 1, 1, 1, 0.5, 0.4, 0.5, 2.5])[0]
             steps.append((op, c, rng.randrange(1000)))
         self.steps = steps
         self.witness['configs'] = self.configs
@@ -63,8 +81,8 @@ class Case(object):
     # ---- invariant at the hook ------------------------------------------------------------------
     def invariant(self, fake, where):
         """discoverable => fetchable, asked by fresh read-only cassettes for every prefix."""
-        for prefix in PREFIXES:
-            rd = fake.cassette('inv', key_prefix=prefix, read_only=True)
+        for prefix, layout in [(p, None) for p in PREFIXES] + [(p, 'archive') for p in PREFIXES if any(c.get('layout') for c in self.configs)]:
+            rd = fake.cassette('inv', key_prefix=prefix, read_only=True, cls=archive_cls() if layout else None)
             for cat in CATS:
                 try:
                     ids = list(rd.iter_recording_ids(cat))
@@ -123,7 +141,8 @@ class Case(object):
                 kw = {}
                 if cfg['sampler'] is not None:
                     kw['sampling_calculator'] = (lambda r: (lambda category, size, recording: r))(cfg['sampler'])
-                cass.append(fake.cassette(cfg['tag'], key_prefix=cfg['prefix'], read_only=cfg['read_only'], transient=cfg['transient'], **kw))
+                cass.append(fake.cassette(cfg['tag'], key_prefix=cfg['prefix'], read_only=cfg['read_only'], transient=cfg['transient'],
+                                          cls=archive_cls() if cfg.get('layout') else None, **kw))
             by_tag = {cfg['tag']: cfg for cfg in self.configs}
             log_start = len(fake.log)
             in_save = [None]
@@ -146,12 +165,25 @@ class Case(object):
                         rec.set_data('k', r)
                         rec.add_metadata({'r': r})
                         pool.append((ci, rec))
-                    elif op in ('save', 'save_foreign_rec'):
-                        cands = [p for p in pool if (p[0] == ci) == (op == 'save')]
-                        if not cands:
-                            continue
-                        pi, rec = cands[r % len(cands)]
-                        pool.remove((pi, rec))
+                    elif op in ('save', 'save_foreign_rec', 'resave'):
+                        if op == 'resave':
+                            # a recording that is already stored is fetched, completed and saved again under its id
+                            mine = [rid for cj, rid in saved_ids if self.configs[cj]['prefix'] == cfg['prefix'] and self.configs[cj].get('layout') == cfg.get('layout')]
+                            if not mine or cfg['read_only']:
+                                continue
+                            try:
+                                rec = c.get_recording(mine[r % len(mine)])
+                            except Exception:
+                                continue
+                            rec.add_metadata({'saved_again': r})
+                            pi = ci
+                            ctx.count('resaves')
+                        else:
+                            cands = [p for p in pool if (p[0] == ci) == (op == 'save')]
+                            if not cands:
+                                continue
+                            pi, rec = cands[r % len(cands)]
+                            pool.remove((pi, rec))
                         self.saves_seen += 1
                         crash_now = self.crash is not None and self.crash[0] == self.saves_seen
                         if crash_now:
@@ -215,7 +247,7 @@ class Case(object):
                         continue
                     if ocfg['read_only']:
                         ctx.violation('read-only cassette performed a bucket %s' % mop, dict(self.witness, step=si, op=op, key=key))
-                    if not in_ns(key, ocfg['prefix']):
+                    if not in_ns(key, ocfg['prefix'], ocfg.get('layout')):
                         ctx.violation('writable cassette (prefix %r) touched a key outside its own prefix (%s)' % (ocfg['prefix'], mop),
                                       dict(self.witness, step=si, op=op, key=key))
                     if mop == 'delete' and not (op in ('close', 'exit') and ocfg['transient']):
@@ -225,7 +257,7 @@ class Case(object):
                     ctx.count('closes')
                     expect_cleanup = cfg['transient'] and not cfg['read_only']
                     for k, v in before.items():
-                        if expect_cleanup and in_ns(k, cfg['prefix']):
+                        if expect_cleanup and in_ns(k, cfg['prefix'], cfg.get('layout')):
                             if k in after:
                                 ctx.violation('transient close left one of its own recordings behind', dict(self.witness, step=si, key=k))
                         elif after.get(k) != v:
@@ -236,7 +268,7 @@ class Case(object):
                 elif op in ('get', 'meta', 'list', 'create') and after != before:
                     ctx.violation('a non-writing call (%s) changed the bucket' % op, dict(self.witness, step=si))
             for k in foreign:
-                if not any(in_ns(k, cfg['prefix']) for cfg in self.configs if cfg['transient'] and not cfg['read_only']):
+                if not any(in_ns(k, cfg['prefix'], cfg.get('layout')) for cfg in self.configs if cfg['transient'] and not cfg['read_only']):
                     if fake.snapshot().get(k) != b'foreign:' + k.encode():
                         ctx.violation('foreign object changed or deleted', dict(self.witness, key=k))
             ctx.count('foreign_objects_checked', len(foreign))
